@@ -4,7 +4,7 @@ import vlib
 
 KINDS = ["load-result", "serving-mismatch", "listening-mismatch", "leftover-runner", "harness-problem",
          "refused-on-retained", "common-key-rejected", "wrong-attribution", "handled-not-once", "datagram-lost",
-         "connection-unhandled", "relay-interrupted", "client-exposed", "process-panic"]
+         "connection-unhandled", "relay-interrupted", "client-exposed", "process-panic", "nat-lifetime"]
 OVERLAY = {"zz_verif_reload_test.go": os.path.join(vlib.ROOT, "harness", "overlay", "main", "reload_test.go"),
            "zz_verif_handover_test.go": os.path.join(vlib.ROOT, "harness", "overlay", "main", "handover_test.go")}
 
